@@ -47,6 +47,9 @@ def run_convs(pid, convs, rep, keys=("wire", "cbs", "closed", "rets"), monitors=
             for m in monitors:
                 for v in m(r):
                     hits.append((c, v, r, i))
+            if monitors:
+                for v in S.open_wf(r, scs[i]):
+                    hits.append((c, v, r, i))
             if extra_check:
                 for v in extra_check(c, e, o, r):
                     hits.append((c, v, r, i))
